@@ -3,7 +3,7 @@
 //!
 //! `jaqmon threads <request.json>` prints one JSON summary. Request:
 //! `{"threads":T,"reps":R,"seed":s,"jitter":0..3,"take":N,"lockstep":bool,
-//!   "compile_during":bool,"share_values":bool,
+//!   "compile_during":bool,"share_values":bool,"dump_expected":bool,
 //!   "programs":[{"prog":text,"vars":[[name,wire]..],"inputs":[wire..]}..]}`
 //!
 //! Phases: (1) every program is compiled ONCE; (2) isolated baseline on the main thread,
@@ -495,7 +495,14 @@ pub fn main(args: &[String]) {
     }
 
     let mm = mismatches.lock().unwrap();
+    // digest of the isolated outcomes (to compare builds / runs with each other)
+    let expected_dump: Value = if req["dump_expected"].as_bool().unwrap_or(false) {
+        json!(*expected)
+    } else {
+        Value::Null
+    };
     let out = json!({
+        "expected": expected_dump,
         "threads": threads, "reps": reps, "programs": progs.len(), "pairs": pairs.len(),
         "lockstep": lockstep, "jitter": level, "take": take,
         "compiled": filters.iter().filter(|f| f.is_some()).count(),
